@@ -17,7 +17,7 @@ wt = tempfile.mkdtemp(prefix="seedver-", dir="/tmp")
 os.rmdir(wt)
 res = {"property": prop, "seed": seed}
 try:
-    r = sh(["git", "-C", "/repo", "worktree", "add", "-q", "--detach", wt, "HEAD"])
+    r = sh(["git", "-C", "/repo", "worktree", "add", "-q", "--detach", wt, os.environ.get("SEED_BASE_COMMIT", "HEAD")])
     assert r.returncode == 0, r.stderr
     patch = os.path.join(seed, "patch.diff")
     a = sh(["git", "-C", wt, "apply", "--check", patch])
